@@ -4929,17 +4929,83 @@ pub mod verif_hooks_onion {
 		(packet.data, attr_to_bytes(&packet.attribution_data))
 	}
 
-	/// The same through `HTLCFailReason::get_encrypted_failure_packet`, as `ChannelManager` does.
+	/// The same through `HTLCFailReason::get_encrypted_failure_packet`, as `ChannelManager` does. With
+	/// `persist`, the `HTLCFailReason` is written and read back (as when the node restarts between
+	/// receiving the failure and relaying it) before it is used.
 	pub fn wrap_failure_via_reason(
 		shared_secret: &[u8; 32], data: Vec<u8>, attribution_data: Option<Vec<u8>>, hold_time: u32,
+		persist: bool,
 	) -> (Vec<u8>, Option<Vec<u8>>) {
 		let mut reason = HTLCFailReason(HTLCFailReasonRepr::LightningError {
 			err: OnionErrorPacket { data, attribution_data: attr_from_bytes(&attribution_data) },
 			hold_time: None,
 		});
+		if persist {
+			reason = Readable::read(&mut &reason.encode()[..]).expect("HTLCFailReason must read back");
+		}
 		reason.set_hold_time(hold_time);
+		if persist {
+			reason = Readable::read(&mut &reason.encode()[..]).expect("HTLCFailReason must read back");
+		}
 		let packet = reason.get_encrypted_failure_packet(shared_secret, &None);
 		(packet.data, attr_to_bytes(&packet.attribution_data))
+	}
+
+	/// A failure originated locally, through `HTLCFailReason` (the `Reason` variant) and
+	/// `get_encrypted_failure_packet`, optionally for a phantom / trampoline hop
+	/// (`secondary_shared_secret`) and optionally written and read back first.
+	pub fn local_failure_via_reason(
+		shared_secret: &[u8; 32], secondary_shared_secret: Option<[u8; 32]>, failure_code: u16,
+		failure_data: Vec<u8>, persist: bool,
+	) -> (Vec<u8>, Option<Vec<u8>>) {
+		let mut reason = HTLCFailReason(HTLCFailReasonRepr::Reason {
+			data: failure_data,
+			failure_reason: failure_code.into(),
+		});
+		if persist {
+			reason = Readable::read(&mut &reason.encode()[..]).expect("HTLCFailReason must read back");
+		}
+		let packet = reason.get_encrypted_failure_packet(shared_secret, &secondary_shared_secret);
+		(packet.data, attr_to_bytes(&packet.attribution_data))
+	}
+
+	/// `AttributionData` through its `Writeable` / `Readable`.
+	pub fn attribution_roundtrip(attribution_data: Vec<u8>) -> Vec<u8> {
+		let a: AttributionData =
+			Readable::read(&mut &attribution_data[..]).expect("AttributionData must read back");
+		a.encode()
+	}
+
+	/// A failure through the `update_fail_htlc` message's `Writeable` / `LengthReadable`.
+	pub fn fail_msg_roundtrip(
+		data: Vec<u8>, attribution_data: Option<Vec<u8>>,
+	) -> (Vec<u8>, Option<Vec<u8>>) {
+		use crate::util::ser::LengthReadable;
+		let msg = msgs::UpdateFailHTLC {
+			channel_id: ChannelId([7; 32]),
+			htlc_id: 5,
+			reason: data,
+			attribution_data: attr_from_bytes(&attribution_data),
+		};
+		let bytes = msg.encode();
+		let back: msgs::UpdateFailHTLC =
+			LengthReadable::read_from_fixed_length_buffer(&mut &bytes[..]).expect("update_fail_htlc must read back");
+		(back.reason, attr_to_bytes(&back.attribution_data))
+	}
+
+	/// Fulfil attribution data through the `update_fulfill_htlc` message's `Writeable` / `LengthReadable`.
+	pub fn fulfill_msg_roundtrip(attribution_data: Option<Vec<u8>>) -> Option<Vec<u8>> {
+		use crate::util::ser::LengthReadable;
+		let msg = msgs::UpdateFulfillHTLC {
+			channel_id: ChannelId([7; 32]),
+			htlc_id: 5,
+			payment_preimage: PaymentPreimage([9; 32]),
+			attribution_data: attr_from_bytes(&attribution_data),
+		};
+		let bytes = msg.encode();
+		let back: msgs::UpdateFulfillHTLC =
+			LengthReadable::read_from_fixed_length_buffer(&mut &bytes[..]).expect("update_fulfill_htlc must read back");
+		attr_to_bytes(&back.attribution_data)
 	}
 
 	/// The sender's view of a failure.
